@@ -122,8 +122,8 @@ func runTermPlan(run *mon.Run, p termPlan, dir string, st *termStats) {
 		return
 	}
 	defer sink.close()
-	ports := map[string]int{"ipfix": freeUDPPort(), "nf9": freeUDPPort(), "nf5": freeUDPPort(), "sflow": freeUDPPort()}
-	statsPort := freeTCPPort()
+	ports := map[string]int{"ipfix": reservedPort(), "nf9": reservedPort(), "nf5": reservedPort(), "sflow": reservedPort()}
+	statsPort := reservedPort()
 	conf := map[string]string{
 		"mq-name": "rawSocket", "mq-config-file": "mq.conf", "ipfix-rpc-enabled": "false", "dynamic-workers": "false",
 		"stats-format": "rest", "stats-http-port": strconv.Itoa(statsPort), "stats-http-addr": "127.0.0.1",
@@ -155,7 +155,10 @@ func runTermPlan(run *mon.Run, p termPlan, dir string, st *termStats) {
 		return e
 	}
 	var seq uint32
+	var tmu sync.Mutex // guards g, seq and sentSeq: senders run on their own goroutines in some shapes
 	dataFor := func(e *exporterT, proto string) ([]byte, uint32) {
+		tmu.Lock()
+		defer tmu.Unlock()
 		seq++
 		t := e.Tpl[proto]
 		s := wire.GenDataSet(g, t, g.Range(1, 3), o, 0)
@@ -387,7 +390,9 @@ func runTermPlan(run *mon.Run, p termPlan, dir string, st *termStats) {
 			for _, e := range exps[from:] {
 				for _, proto := range []string{"ipfix", "nf9"} {
 					d, s := dataFor(e, proto)
+					tmu.Lock()
 					sentSeq[s] = ackKey{e, proto}
+					tmu.Unlock()
 					snd.send(e.IP, ports[proto], d)
 				}
 				if pace > 0 {
@@ -403,11 +408,13 @@ func runTermPlan(run *mon.Run, p termPlan, dir string, st *termStats) {
 			}
 			// what is acknowledged is fixed BEFORE the signal is sent
 			s := seenAt(sink.snapshot())
+			tmu.Lock()
 			for q := range s {
 				if k, ok := sentSeq[q]; ok {
 					acked[k] = true
 				}
 			}
+			tmu.Unlock()
 			if fl, err := getFlow("127.0.0.1", statsPort); err == nil {
 				busy := false
 				for _, m := range fl {
@@ -429,13 +436,17 @@ func runTermPlan(run *mon.Run, p termPlan, dir string, st *termStats) {
 			sendSignal()
 		case p.When == "early":
 			// the signal arrives while run() is still initialising; traffic is already flowing
-			go sendRound(first, 0)
-			time.Sleep(time.Duration(g.Intn(20)) * time.Millisecond)
+			wait := time.Duration(g.Intn(20)) * time.Millisecond
+			done := make(chan struct{})
+			go func() { sendRound(first, 0); close(done) }()
+			time.Sleep(wait)
 			sendSignal()
+			<-done
 		case p.When == "mid-burst":
+			wait := time.Duration(5+g.Intn(60)) * time.Millisecond
 			done := make(chan struct{})
 			go func() { sendRound(first, 50*time.Microsecond); sendRound(0, 0); close(done) }()
-			time.Sleep(time.Duration(5+g.Intn(60)) * time.Millisecond)
+			time.Sleep(wait)
 			sendSignal()
 			<-done
 		default: // after-ack
@@ -444,11 +455,16 @@ func runTermPlan(run *mon.Run, p termPlan, dir string, st *termStats) {
 				pace = 0
 			}
 			sendRound(first, pace)
+			tmu.Lock()
 			want := len(sentSeq)
+			tmu.Unlock()
 			sink.waitLines(func(ls []string) bool { return len(seenAt(ls)) >= want }, 3*time.Second)
 			if p.Shape == "steady" {
 				// keep a trickle going across the signal
+				wait := time.Duration(g.Intn(50)) * time.Millisecond
+				bg.Add(1)
 				go func() {
+					defer bg.Done()
 					for k := 0; k < 200; k++ {
 						e := exps[k%len(exps)]
 						d, _ := dataFor(e, "ipfix")
@@ -456,7 +472,7 @@ func runTermPlan(run *mon.Run, p termPlan, dir string, st *termStats) {
 						time.Sleep(time.Millisecond)
 					}
 				}()
-				time.Sleep(time.Duration(g.Intn(50)) * time.Millisecond)
+				time.Sleep(wait)
 			}
 			sendSignal()
 		}
@@ -624,6 +640,14 @@ func termMain(args mon.Args) {
 			p.Exporters = 300
 		}
 		plans = append(plans, p)
+	}
+	// start-up under traffic (elements file installed, templates already in the cache file) and a read loop
+	// stalled across the shutdown window (strace delays every recvfrom by 3 s): also in the quick tier
+	for i := 0; i < run.Pick(4, 40); i++ {
+		plans = append(plans, termPlan{Index: 500 + i, Seed: run.Seed, Shape: "burst", When: "after-ack", Signal: "TERM", Cycles: 8, Exporters: 30, Workers: 4, Elements: true, RestartUnderTraffic: true})
+	}
+	for i := 0; i < run.Pick(3, 0); i++ {
+		plans = append(plans, termPlan{Index: 2000 + i, Seed: run.Seed, Shape: "flood", When: "after-ack", Signal: "TERM", Cycles: 2, Exporters: 60, Workers: 2, Delay: 3000000})
 	}
 	if run.Thorough() {
 		for i := 0; i < 60; i++ {
